@@ -94,6 +94,13 @@ struct Res {
 		if(symptom.find(s) == std::string::npos) { symptom += (symptom.empty() ? "" : "+") + s; }
 		if(detail.size() < 600) { detail += (detail.empty() ? "" : "; ") + d; }
 	}
+	// The symptom that enters the violation KEY is deliberately coarse: how a miscomputation shows (wrong numbers, output not written, damage outside the view,
+	// a wild access that happens to hit an unmapped page) depends on sizes and on heap addresses, so finer symptoms would split one class over several keys
+	// and make the key set depend on the tier or on the position of a configuration in its batch.  The record keeps the detailed list.
+	std::string keysym() const {
+		for(char const* s : {"blas-illegal-argument", "foreign-assertion", "view-mismatch", "nondeterministic"}) { if(symptom.find(s) != std::string::npos) { return s; } }
+		return "miscomputed";
+	}
 };
 struct Desc {
 	std::string id, keyprefix;                                  // replay string; key without the symptom
@@ -165,7 +172,7 @@ struct Driver {
 				sh->pos = -1; sh->finished = 0;
 				std::fflush(stdout); std::fflush(stderr);
 				pid_t pid = fork();
-				if(pid == 0) { dup2(err, 2); close(err); close(pfd[0]); vfd = pfd[1]; mode = CHILD; cpos = 0; cstart = done; break; }
+				if(pid == 0) { dup2(err, 2); close(err); close(pfd[0]); vfd = pfd[1]; mode = CHILD; cpos = 0; cstart = done; alarm(600); break; }   // (a hanging batch is killed by SIGALRM and reported as a crash of its current configuration)
 				close(pfd[1]);
 				std::string vio; { char buf[65536]; for(;;) { auto n = read(pfd[0], buf, sizeof buf); if(n <= 0) { break; } vio.append(buf, static_cast<std::size_t>(n)); } }
 				close(pfd[0]);
@@ -186,7 +193,9 @@ struct Driver {
 					std::string kp = mc::g_cur->key, id = mc::g_cur->trace;
 					if(sh->pos < done) { kp = "harness"; id = "(died before executing a configuration)"; }
 					++deaths; ++sh->n_viol;
-					mc::R.violation(kp + "|crash:" + cls, mc::J().s("harness", "blasmc").s("replay", id).s("kind", "crash").s("cause", cause).s("class", cls).s("stderr", mc::crash_digest(se)).str());
+					// a wild memory access (BLAS is not instrumented: only a fault or a later ASan report reveals it) is the same defect class as wrong numbers
+					std::string const sym = (cls == "asan" || cls == "signal-11" || cls == "signal-7") ? std::string("miscomputed") : "crash:" + cls;
+					mc::R.violation(kp + "|" + sym, mc::J().s("harness", "blasmc").s("replay", id).s("kind", "crash").s("cause", cause).s("class", cls).s("stderr", mc::crash_digest(se)).str());
 					done = std::max(done + 1, sh->pos + 1);
 				}
 				close(err);
@@ -207,7 +216,7 @@ struct Driver {
 			default: {
 				++sh->n_viol;
 				if(r.detail.size() > 900) { r.detail.resize(900); }
-				std::string line = d.keyprefix + "|" + r.symptom + "\t" + record(d, r) + "\n";
+				std::string line = d.keyprefix + "|" + r.keysym() + "\t" + record(d, r) + "\n";
 				for(std::size_t o = 0; o < line.size();) { auto n = write(vfd, line.data() + o, line.size() - o); if(n <= 0) { break; } o += static_cast<std::size_t>(n); }
 				if(r.escaped) { std::fflush(stderr); _exit(0); }
 			}
@@ -320,6 +329,8 @@ enum { VU, VS, VC, NVK };
 static char const* const vname[] = {"unit", "stride2", "column"};
 struct VL { int kind, wrap; };  // wrap: WI or WJ (= blas::C(v))
 static std::string lname(VL l) { return l.wrap == WI ? std::string(vname[l.kind]) : std::string("C.") + vname[l.kind]; }
+// layout class used in violation keys: unit or non-unit stride (the two non-unit variants differ only in the value of the stride)
+static std::string cname(VL l) { return std::string(l.wrap == WI ? "" : "C.") + (l.kind == VU ? "unit" : "strided"); }
 template<class T> std::vector<VL> vlayouts(bool conj_ok) {
 	std::vector<VL> r;
 	for(int w = 0; w < ((is_cx<T>{} && conj_ok) ? 2 : 1); ++w) { for(int k = 0; k < NVK; ++k) { r.push_back(VL{k, w}); } }
@@ -403,11 +414,14 @@ template<class T> T genY(long i) { return mk<T>(3 + 2 * i, 5 + i); }
 static constexpr long PAD_A = 4099, PAD_B = 8209, PAD_C = 16411;
 
 // translate the result of guarded() into a Res; returns true when the call ran to completion (then the checks follow)
-static bool ran(int g, Res& res) {
+// out_elems: number of elements of the requested result.  BLAS refusing the call (xerbla) is a violation of its own ("not rejected by the adaptor, not computed
+// either") whenever a result was requested; the numeric checks are then skipped, so that the class gets one key whatever alpha and beta are.  For an empty
+// result nothing can be miscomputed and the property is silent: counted as correct.
+static bool ran(int g, Res& res, long out_elems) {
 	if(g == 1) { res.code = 1; return false; }
 	if(g == 2) { res.code = 2; return false; }
 	if(g == 3) { res.flag("foreign-assertion", g_assert); return false; }
-	if(g_xerbla != 0) { res.flag("blas-illegal-argument", std::string("the library passed an illegal argument to BLAS: xerbla(") + g_xerbla_name + ", parameter " + std::to_string(g_xerbla) + ")"); }
+	if(g_xerbla != 0 && out_elems > 0) { res.flag("blas-illegal-argument", std::string("the adaptor passed an illegal argument to BLAS, which refused the call: xerbla(") + g_xerbla_name + ", parameter " + std::to_string(g_xerbla) + ")"); return false; }
 	return true;
 }
 
@@ -417,66 +431,647 @@ static bool g_thorough  = false;
 struct SectionCount { std::string name; long n; };
 static std::vector<SectionCount> g_sections;
 
+// ================================================================================================ common pieces of the grids
+// Violation keys name the *family* of spellings that reach the same entry point of the adaptor (the replay string keeps the exact spelling).
+static std::string family(std::string const& form) {
+	static std::map<std::string, std::string> const fam = {
+		{"gemm.operator*", "gemm.assign"}, {"gemm.construct", "gemm.new"}, {"gemm.decay", "gemm.new"}, {"gemm.assign-to-array", "gemm.new"},
+		{"gemv.construct", "gemv.new"}, {"gemv.decay", "gemv.new"}, {"gemv.operator%", "gemv.new"},
+		{"dot.result-arg", "dot.result"}, {"dot.result-0d", "dot.result"}, {"dot.decay", "dot.value"}, {"dot.operator,", "dot.value"},
+		{"axpy.operator+=", "axpy.inplace"}, {"axpy.operator-=", "axpy.inplace"}, {"axpy.pluseq", "axpy.range"}, {"axpy.minuseq", "axpy.range"}, {"axpy.operator+", "axpy.new"}, {"axpy.operator-", "axpy.new"},
+		{"copy.operator<<", "copy.inplace"}, {"copy.construct", "copy.new"}, {"scal.operator*=", "scal.inplace"},
+		{"nrm2.result-arg", "nrm2.result"}, {"nrm2.result-0d", "nrm2.result"}, {"nrm2.decay", "nrm2.value"}, {"nrm2.operators-abs", "nrm2.value"},
+		{"iamax.iterators", "iamax"}, {"iamax.n", "iamax"},
+		{"herk.fill-alpha", "herk.inplace"}, {"herk.alpha", "herk.both-triangles"}, {"herk.plain", "herk.both-triangles"}, {"herk.value-alpha", "herk.new"}, {"herk.value", "herk.new"},
+		{"syrk.fill-alpha", "syrk.inplace"},
+		{"trsm.side-fill-diag", "trsm"}, {"trsm.side-fill", "trsm"}, {"trsm.triangular-part", "trsm"}, {"trsm.operator/=", "trsm"}, {"trsm.operator|=", "trsm"}};
+	auto it = fam.find(form);
+	return it == fam.end() ? form : it->second;
+}
+template<class X, class Y> constexpr bool both_conj = blas::is_conjugated<std::decay_t<X>>{} && blas::is_conjugated<std::decay_t<Y>>{};
+// scalar operands of a form: enumerated (n > 1) or implied by the form (n == 1, value fixed)
+struct ScalSet { bool enumerated; int fixed; int count(int ns) const { return enumerated ? ns : 1; } int at(int i) const { return enumerated ? i : fixed; } };
+static std::string sizes3(long m, long k, long n) { return "m" + std::to_string(m) + "k" + std::to_string(k) + "n" + std::to_string(n); }
+static void note_section(std::string const& what, long g0) { g_sections.push_back({what, D.gidx - g0}); }
+// a freshly returned array must have the mathematical extents and contents (for an empty result only emptiness is required)
+template<class T, class Arr> void check_new2(Arr& r, long m, long n, std::vector<T> const& expect, Res& res) {
+	if(m == 0 || n == 0) { if(r.num_elements() != 0) { res.flag("wrong-extents", "result should be empty, has " + std::to_string(r.num_elements()) + " elements"); } return; }
+	if(r.size() != m || (~r).size() != n) { res.flag("wrong-extents", "result is " + std::to_string(r.size()) + "x" + std::to_string((~r).size()) + ", expected " + std::to_string(m) + "x" + std::to_string(n)); return; }
+	for(long i = 0; i < m; ++i) { for(long j = 0; j < n; ++j) { T g = static_cast<T>(r[i][j]); T e = expect[static_cast<std::size_t>(i * n + j)]; if(!(g == e)) { res.flag("wrong-result", "result[" + std::to_string(i) + "][" + std::to_string(j) + "] expected " + vstr(e) + " got " + vstr(g)); return; } } }
+}
+template<class T, class Arr> void check_new1(Arr& r, long n, std::vector<T> const& expect, Res& res) {
+	if(r.size() != n) { res.flag("wrong-extents", "result has " + std::to_string(r.size()) + " elements, expected " + std::to_string(n)); return; }
+	for(long i = 0; i < n; ++i) { T g = static_cast<T>(r[i]); T e = expect[static_cast<std::size_t>(i)]; if(!(g == e)) { res.flag("wrong-result", "result[" + std::to_string(i) + "] expected " + vstr(e) + " got " + vstr(g)); return; } }
+}
+
 // ================================================================================================ GEMM
 // C (m x n) <- alpha A (m x k) B (k x n) + beta C
-template<class T> std::vector<T> ref_gemm(T alpha, Mat<T> const& A, Mat<T> const& B, T beta, Mat<T> const& C) {
+template<class T> std::vector<T> ref_gemm(T alpha, Mat<T> const& A, Mat<T> const& B, T beta, Mat<T> const* C) {
 	long m = A.R, k = A.C, n = B.C;
 	std::vector<T> o(static_cast<std::size_t>(m * n));
 	for(long i = 0; i < m; ++i) { for(long j = 0; j < n; ++j) {
 		T s = mk<T>(0, 0);
 		for(long p = 0; p < k; ++p) { s += A.at(i, p) * B.at(p, j); }
-		o[static_cast<std::size_t>(i * n + j)] = alpha * s + beta * C.at(i, j);
+		o[static_cast<std::size_t>(i * n + j)] = alpha * s + (C != nullptr ? beta * C->at(i, j) : mk<T>(0, 0));
 	} }
 	return o;
 }
 
-// Call(alpha, A, B, beta, C) performs the library call.  ConjC: output wrappers are part of the grid.  has_beta: beta is enumerated (otherwise beta_fixed is what the form means).
+// call(alpha, A, B, beta, C) performs the library call on an existing output view.  ConjC: output wrappers are part of the grid.
 template<class T, bool ConjC, class Call>
-void grid_gemm(std::string const& form, bool has_beta, int beta_fixed, Call call) {
+void grid_gemm(std::string const& form, ScalSet sa, ScalSet sb, Call call) {
 	if(!D.want(form, tcode<T>())) { return; }
 	long const g0 = D.gidx;
 	auto LA = mlayouts<T>(true), LB = mlayouts<T>(true), LC = mlayouts<T>(ConjC);
 	int const ns = nscal<T>();
 	for(long m = 0; m <= g_sizes_max; ++m) { for(long k = 0; k <= g_sizes_max; ++k) { for(long n = 0; n <= g_sizes_max; ++n) {
 	for(ML la : LA) { for(ML lb : LB) { for(ML lc : LC) {
-	for(int ia = 0; ia < ns; ++ia) { for(int ib = 0; ib < (has_beta ? ns : 1); ++ib) {
-		int const ibeta = has_beta ? ib : beta_fixed;
+	for(int xa = 0; xa < sa.count(ns); ++xa) { for(int xb = 0; xb < sb.count(ns); ++xb) {
+		int const ia = sa.at(xa), ib = sb.at(xb);
 		D.step(m * 100 + k * 10 + n, m >= 1 && k >= 1 && n >= 1,
 			[&] {
 				Desc d;
-				d.id = form + "/" + tcode<T>() + "/A=" + lname(la) + ",B=" + lname(lb) + ",C=" + lname(lc) + "/m" + std::to_string(m) + "k" + std::to_string(k) + "n" + std::to_string(n) + "/a=" + sc_name[ia] + (has_beta ? std::string(",b=") + sc_name[ibeta] : std::string());
-				d.keyprefix = form + "|" + tname<T>() + "|A=" + cname(la) + ",B=" + cname(lb) + ",C=" + cname(lc) + "|m=" + szc(m) + ",k=" + szc(k) + ",n=" + szc(n) + "|" + (has_beta ? "beta" + sc_class(ibeta) : "alpha" + sc_class(ia));
+				d.id = form + "/" + tcode<T>() + "/A=" + lname(la) + ",B=" + lname(lb) + ",C=" + lname(lc) + "/" + sizes3(m, k, n) + "/a=" + sc_name[ia] + ",b=" + sc_name[ib];
+				d.keyprefix = family(form) + "|" + tname<T>() + "|A=" + cname(la) + ",B=" + cname(lb) + ",C=" + cname(lc) + "|m=" + szc(m) + ",k=" + szc(k) + ",n=" + szc(n) + "|beta" + sc_class(ib);
 				d.fields = {{"operation", form + ": C(m x n) <- alpha A(m x k) B(k x n) + beta C"}, {"element_type", tname<T>()}, {"layouts", "A=" + lname(la) + " B=" + lname(lb) + " C=" + lname(lc)},
-					{"sizes", "m=" + std::to_string(m) + " k=" + std::to_string(k) + " n=" + std::to_string(n)}, {"scalars", std::string("alpha=") + sc_name[ia] + " beta=" + sc_name[ibeta] + (has_beta ? "" : " (implied by the form)")}};
+					{"sizes", "m=" + std::to_string(m) + " k=" + std::to_string(k) + " n=" + std::to_string(n)}, {"scalars", std::string("alpha=") + sc_name[ia] + (sa.enumerated ? "" : " (implied)") + " beta=" + sc_name[ib] + (sb.enumerated ? "" : " (implied)")}};
 				return d;
 			},
 			[&] {
 				Res res;
-				T const alpha = scal_of<T>(ia), beta = scal_of<T>(ibeta);
+				T const alpha = scal_of<T>(ia), beta = scal_of<T>(ib);
 				Mat<T> A("A", la, m, k, PAD_A), B("B", lb, k, n, PAD_B), C("C", lc, m, n, PAD_C);
 				A.template view<true>([&](auto& a) { B.template view<true>([&](auto& b) { C.template view<ConjC>([&](auto& c) {
 					A.fill(a, genA<T>, res); B.fill(b, genB<T>, res); C.fill(c, genC<T>, res);
 					if(res.code != 0) { return; }
-					auto expect = ref_gemm(alpha, A, B, beta, C);
-					if(!ran(guarded([&] { call(alpha, a, b, beta, c); }), res)) { return; }
+					auto expect = ref_gemm(alpha, A, B, beta, &C);
+					if(!ran(guarded([&] { call(alpha, a, b, beta, c); }), res, m * n)) { return; }
 					C.check_out(c, expect, res); A.check_in(res); B.check_in(res);
 				}); }); });
 				return res;
 			});
 	} } } } } } } }
-	g_sections.push_back({form + "<" + tname<T>() + ">: sizes (0.." + std::to_string(g_sizes_max) + ")^3 x layouts A " + std::to_string(LA.size()) + " x B " + std::to_string(LB.size()) + " x C " + std::to_string(LC.size()) + " x alpha " + std::to_string(ns) + (has_beta ? " x beta " + std::to_string(ns) : std::string()), D.gidx - g0});
+	note_section(form + "<" + tname<T>() + ">: sizes (0.." + std::to_string(g_sizes_max) + ")^3 x layouts A " + std::to_string(LA.size()) + " x B " + std::to_string(LB.size()) + " x C " + std::to_string(LC.size()) + " x alpha " + std::to_string(sa.count(ns)) + " x beta " + std::to_string(sb.count(ns)), g0);
+}
+// call(alpha, A, B) returns a new owning array
+template<class T, class Call>
+void grid_gemm_new(std::string const& form, ScalSet sa, Call call) {
+	if(!D.want(form, tcode<T>())) { return; }
+	long const g0 = D.gidx;
+	auto LA = mlayouts<T>(true), LB = mlayouts<T>(true);
+	int const ns = nscal<T>();
+	for(long m = 0; m <= g_sizes_max; ++m) { for(long k = 0; k <= g_sizes_max; ++k) { for(long n = 0; n <= g_sizes_max; ++n) {
+	for(ML la : LA) { for(ML lb : LB) { for(int xa = 0; xa < sa.count(ns); ++xa) {
+		int const ia = sa.at(xa);
+		D.step(m * 100 + k * 10 + n, m >= 1 && k >= 1 && n >= 1,
+			[&] {
+				Desc d;
+				d.id = form + "/" + tcode<T>() + "/A=" + lname(la) + ",B=" + lname(lb) + "/" + sizes3(m, k, n) + "/a=" + sc_name[ia];
+				d.keyprefix = family(form) + "|" + tname<T>() + "|A=" + cname(la) + ",B=" + cname(lb) + "|m=" + szc(m) + ",k=" + szc(k) + ",n=" + szc(n) + "|alpha" + sc_class(ia);
+				d.fields = {{"operation", form + ": new array (m x n) = alpha A(m x k) B(k x n)"}, {"element_type", tname<T>()}, {"layouts", "A=" + lname(la) + " B=" + lname(lb)},
+					{"sizes", "m=" + std::to_string(m) + " k=" + std::to_string(k) + " n=" + std::to_string(n)}, {"scalars", std::string("alpha=") + sc_name[ia] + (sa.enumerated ? "" : " (implied)")}};
+				return d;
+			},
+			[&] {
+				Res res;
+				T const alpha = scal_of<T>(ia);
+				Mat<T> A("A", la, m, k, PAD_A), B("B", lb, k, n, PAD_B);
+				A.template view<true>([&](auto& a) { B.template view<true>([&](auto& b) {
+					A.fill(a, genA<T>, res); B.fill(b, genB<T>, res);
+					if(res.code != 0) { return; }
+					auto expect = ref_gemm<T>(alpha, A, B, mk<T>(0, 0), nullptr);
+					multi::array<T, 2> out;
+					if(!ran(guarded([&] { out = call(alpha, a, b); }), res, m * n)) { return; }
+					check_new2<T>(out, m, n, expect, res); A.check_in(res); B.check_in(res);
+				}); });
+				return res;
+			});
+	} } } } } }
+	note_section(form + "<" + tname<T>() + ">: sizes (0.." + std::to_string(g_sizes_max) + ")^3 x layouts A " + std::to_string(LA.size()) + " x B " + std::to_string(LB.size()) + " x alpha " + std::to_string(sa.count(ns)), g0);
 }
 
 // gemm on complex<float> is not instantiable on this tree: core.hpp:530 compares `*beta != 0.0` (complex<float> vs double)
 template<class T> constexpr bool gemm_instantiable = !std::is_same_v<T, std::complex<float>>;
 template<class T> void section_gemm() {
-	if constexpr(gemm_instantiable<T>)
-	grid_gemm<T, true>("gemm.inplace", true, 0, [](T alpha, auto& a, auto& b, T beta, auto& c) { blas::gemm(alpha, a, b, beta, c); });
+	if constexpr(gemm_instantiable<T>) {
+		ScalSet const all{true, 0}, zero{false, 0}, one{false, 1};
+		grid_gemm<T, true>("gemm.inplace", all, all, [](T alpha, auto& a, auto& b, T beta, auto& c) { blas::gemm(alpha, a, b, beta, c); });
+		grid_gemm<T, false>("gemm.assign", all, zero, [](T alpha, auto& a, auto& b, T, auto& c) { c = blas::gemm(alpha, a, b); });
+		grid_gemm<T, false>("gemm.pluseq", all, one, [](T alpha, auto& a, auto& b, T, auto& c) { c += blas::gemm(alpha, a, b); });
+		grid_gemm<T, false>("gemm.operator*", one, zero, [](T, auto& a, auto& b, T, auto& c) { using blas::operators::operator*; c = a * b; });
+		grid_gemm_new<T>("gemm.construct", all, [](T alpha, auto& a, auto& b) { multi::array<T, 2> r = blas::gemm(alpha, a, b); return r; });
+		grid_gemm_new<T>("gemm.decay", all, [](T alpha, auto& a, auto& b) { auto r = +blas::gemm(alpha, a, b); return multi::array<T, 2>(std::move(r)); });
+		grid_gemm_new<T>("gemm.assign-to-array", all, [](T alpha, auto& a, auto& b) { multi::array<T, 2> r({5, 1}, mk<T>(77, 78)); r = blas::gemm(alpha, a, b); return r; });
+	}
+}
+
+// ================================================================================================ GEMV
+// y (m) <- alpha M (m x n) x (n) + beta y
+template<class T> std::vector<T> ref_gemv(T alpha, Mat<T> const& M, Vec<T> const& X, T beta, Vec<T> const* Y) {
+	std::vector<T> o(static_cast<std::size_t>(M.R));
+	for(long i = 0; i < M.R; ++i) { T s = mk<T>(0, 0); for(long j = 0; j < M.C; ++j) { s += M.at(i, j) * X.at(j); } o[static_cast<std::size_t>(i)] = alpha * s + (Y != nullptr ? beta * Y->at(i) : mk<T>(0, 0)); }
+	return o;
+}
+template<class T, class Call>
+void grid_gemv(std::string const& form, ScalSet sa, ScalSet sb, Call call) {
+	if(!D.want(form, tcode<T>())) { return; }
+	long const g0 = D.gidx;
+	auto LM = mlayouts<T>(true); auto LX = vlayouts<T>(false), LY = vlayouts<T>(false);
+	int const ns = nscal<T>();
+	for(long m = 0; m <= g_sizes_max; ++m) { for(long n = 0; n <= g_sizes_max; ++n) {
+	for(ML lm : LM) { for(VL lx : LX) { for(VL ly : LY) {
+	for(int xa = 0; xa < sa.count(ns); ++xa) { for(int xb = 0; xb < sb.count(ns); ++xb) {
+		int const ia = sa.at(xa), ib = sb.at(xb);
+		D.step(m * 10 + n, m >= 1 && n >= 1,
+			[&] {
+				Desc d;
+				d.id = form + "/" + tcode<T>() + "/M=" + lname(lm) + ",x=" + lname(lx) + ",y=" + lname(ly) + "/m" + std::to_string(m) + "n" + std::to_string(n) + "/a=" + sc_name[ia] + ",b=" + sc_name[ib];
+				d.keyprefix = family(form) + "|" + tname<T>() + "|M=" + cname(lm) + ",x=" + cname(lx) + ",y=" + cname(ly) + "|m=" + szc(m) + ",n=" + szc(n) + "|beta" + sc_class(ib);
+				d.fields = {{"operation", form + ": y(m) <- alpha M(m x n) x(n) + beta y"}, {"element_type", tname<T>()}, {"layouts", "M=" + lname(lm) + " x=" + lname(lx) + " y=" + lname(ly)},
+					{"sizes", "m=" + std::to_string(m) + " n=" + std::to_string(n)}, {"scalars", std::string("alpha=") + sc_name[ia] + (sa.enumerated ? "" : " (implied)") + " beta=" + sc_name[ib] + (sb.enumerated ? "" : " (implied)")}};
+				return d;
+			},
+			[&] {
+				Res res;
+				T const alpha = scal_of<T>(ia), beta = scal_of<T>(ib);
+				Mat<T> M("M", lm, m, n, PAD_A); Vec<T> X("x", lx, n, PAD_B), Y("y", ly, m, PAD_C);
+				M.template view<true>([&](auto& a) { X.template view<false>([&](auto& x) { Y.template view<false>([&](auto& y) {
+					M.fill(a, genA<T>, res); X.fill(x, genX<T>, res); Y.fill(y, genY<T>, res);
+					if(res.code != 0) { return; }
+					auto expect = ref_gemv(alpha, M, X, beta, &Y);
+					if(!ran(guarded([&] { call(alpha, a, x, beta, y); }), res, m)) { return; }
+					Y.check_out(y, expect, res); M.check_in(res); X.check_in(res);
+				}); }); });
+				return res;
+			});
+	} } } } } } }
+	note_section(form + "<" + tname<T>() + ">: sizes (0.." + std::to_string(g_sizes_max) + ")^2 x layouts M " + std::to_string(LM.size()) + " x x " + std::to_string(LX.size()) + " x y " + std::to_string(LY.size()) + " x alpha " + std::to_string(sa.count(ns)) + " x beta " + std::to_string(sb.count(ns)), g0);
+}
+template<class T, class Call>
+void grid_gemv_new(std::string const& form, ScalSet sa, Call call) {
+	if(!D.want(form, tcode<T>())) { return; }
+	long const g0 = D.gidx;
+	auto LM = mlayouts<T>(true); auto LX = vlayouts<T>(false);
+	int const ns = nscal<T>();
+	for(long m = 0; m <= g_sizes_max; ++m) { for(long n = 0; n <= g_sizes_max; ++n) {
+	for(ML lm : LM) { for(VL lx : LX) { for(int xa = 0; xa < sa.count(ns); ++xa) {
+		int const ia = sa.at(xa);
+		D.step(m * 10 + n, m >= 1 && n >= 1,
+			[&] {
+				Desc d;
+				d.id = form + "/" + tcode<T>() + "/M=" + lname(lm) + ",x=" + lname(lx) + "/m" + std::to_string(m) + "n" + std::to_string(n) + "/a=" + sc_name[ia];
+				d.keyprefix = family(form) + "|" + tname<T>() + "|M=" + cname(lm) + ",x=" + cname(lx) + "|m=" + szc(m) + ",n=" + szc(n) + "|alpha" + sc_class(ia);
+				d.fields = {{"operation", form + ": new array (m) = alpha M(m x n) x(n)"}, {"element_type", tname<T>()}, {"layouts", "M=" + lname(lm) + " x=" + lname(lx)},
+					{"sizes", "m=" + std::to_string(m) + " n=" + std::to_string(n)}, {"scalars", std::string("alpha=") + sc_name[ia] + (sa.enumerated ? "" : " (implied)")}};
+				return d;
+			},
+			[&] {
+				Res res;
+				T const alpha = scal_of<T>(ia);
+				Mat<T> M("M", lm, m, n, PAD_A); Vec<T> X("x", lx, n, PAD_B);
+				M.template view<true>([&](auto& a) { X.template view<false>([&](auto& x) {
+					M.fill(a, genA<T>, res); X.fill(x, genX<T>, res);
+					if(res.code != 0) { return; }
+					auto expect = ref_gemv<T>(alpha, M, X, mk<T>(0, 0), nullptr);
+					multi::array<T, 1> out;
+					if(!ran(guarded([&] { out = call(alpha, a, x); }), res, m)) { return; }
+					check_new1<T>(out, m, expect, res); M.check_in(res); X.check_in(res);
+				}); });
+				return res;
+			});
+	} } } } }
+	note_section(form + "<" + tname<T>() + ">: sizes (0.." + std::to_string(g_sizes_max) + ")^2 x layouts M " + std::to_string(LM.size()) + " x x " + std::to_string(LX.size()) + " x alpha " + std::to_string(sa.count(ns)), g0);
+}
+template<class T> void section_gemv() {
+	ScalSet const all{true, 0}, zero{false, 0}, one{false, 1};
+	grid_gemv<T>("gemv.inplace", all, all, [](T alpha, auto& a, auto& x, T beta, auto& y) { blas::gemv(alpha, a, x, beta, y); });
+	grid_gemv<T>("gemv.assign", all, zero, [](T alpha, auto& a, auto& x, T, auto& y) { y = blas::gemv(alpha, a, x); });
+	grid_gemv<T>("gemv.pluseq", all, one, [](T alpha, auto& a, auto& x, T, auto& y) { y += blas::gemv(alpha, a, x); });
+	grid_gemv_new<T>("gemv.construct", all, [](T alpha, auto& a, auto& x) { multi::array<T, 1> r = blas::gemv(alpha, a, x); return r; });
+	grid_gemv_new<T>("gemv.decay", all, [](T alpha, auto& a, auto& x) { auto r = +blas::gemv(alpha, a, x); return multi::array<T, 1>(std::move(r)); });
+	grid_gemv_new<T>("gemv.operator%", one, [](T, auto& a, auto& x) { using blas::operators::operator%; auto r = a % x; return multi::array<T, 1>(std::move(r)); });
+}
+
+// ================================================================================================ level 1: two vectors
+// A scalar result (dot) is carried as complex<double>, which represents every value of the four element types exactly.
+using cdbl = std::complex<double>;
+template<class T> cdbl to_c(T v) { if constexpr(is_cx<T>{}) { return cdbl(static_cast<double>(v.real()), static_cast<double>(v.imag())); } else { return cdbl(static_cast<double>(v), 0.0); } }
+static std::string cstr(cdbl v) { return vstr(v); }
+struct V2Form { std::string form, opdesc; bool conj; ScalSet sa; bool xout, yout, scalar_out; };
+// ref(alpha, X, Y, ex, ey) -> expected scalar;  call(alpha, x, y) -> scalar result (0 if none)
+template<class T, bool Conj, class Ref, class Call>
+void grid_v2(V2Form const& f, Ref ref, Call call) {
+	if(!D.want(f.form, tcode<T>())) { return; }
+	long const g0 = D.gidx;
+	auto LX = vlayouts<T>(Conj), LY = vlayouts<T>(Conj);
+	int const ns = nscal<T>();
+	for(long n = 0; n <= g_vec_max; ++n) { for(VL lx : LX) { for(VL ly : LY) {
+	if(lx.wrap != WI && ly.wrap != WI) { continue; }  // dot(C(x), C(y)) is a static_assert ("not implemented in blas")
+	for(int xa = 0; xa < f.sa.count(ns); ++xa) {
+		int const ia = f.sa.at(xa);
+		D.step(n, n >= 1,
+			[&] {
+				Desc d;
+				d.id = f.form + "/" + tcode<T>() + "/x=" + lname(lx) + ",y=" + lname(ly) + "/n" + std::to_string(n) + "/a=" + sc_name[ia];
+				d.keyprefix = family(f.form) + "|" + tname<T>() + "|x=" + cname(lx) + ",y=" + cname(ly) + "|n=" + szc(n) + "|" + (f.sa.enumerated ? "alpha" + sc_class(ia) : std::string("-"));
+				d.fields = {{"operation", f.form + ": " + f.opdesc}, {"element_type", tname<T>()}, {"layouts", "x=" + lname(lx) + " y=" + lname(ly)}, {"sizes", "n=" + std::to_string(n)}, {"scalars", f.sa.enumerated ? std::string("alpha=") + sc_name[ia] : std::string("none")}};
+				return d;
+			},
+			[&] {
+				Res res;
+				T const alpha = scal_of<T>(ia);
+				Vec<T> X("x", lx, n, PAD_A), Y("y", ly, n, PAD_B);
+				X.template view<Conj>([&](auto& x) { Y.template view<Conj>([&](auto& y) {
+					if constexpr(both_conj<decltype(x), decltype(y)>) { return; } else {   // (excluded from the grid above; this branch only keeps the combination from being instantiated)
+					X.fill(x, genX<T>, res); Y.fill(y, genY<T>, res);
+					if(res.code != 0) { return; }
+					std::vector<T> ex = X.before, ey = Y.before;
+					cdbl const es = ref(alpha, X, Y, ex, ey);
+					cdbl gs(0, 0);
+					if(!ran(guarded([&] { gs = call(alpha, x, y); }), res, f.scalar_out ? 1 : n)) { return; }
+					if(f.scalar_out && !(gs == es)) { res.flag(gs == cdbl(-777, -778) ? "output-untouched" : "wrong-result", "result expected " + cstr(es) + " got " + cstr(gs)); }
+					if(f.xout) { X.check_out(x, ex, res); } else { X.check_in(res); }
+					if(f.yout) { Y.check_out(y, ey, res); } else { Y.check_in(res); }
+					}
+				}); });
+				return res;
+			});
+	} } } }
+	note_section(f.form + "<" + tname<T>() + ">: n 0.." + std::to_string(g_vec_max) + " x layouts x " + std::to_string(LX.size()) + " x y " + std::to_string(LY.size()) + (Conj && is_cx<T>{} ? " (minus both conjugated)" : "") + " x alpha " + std::to_string(f.sa.count(ns)), g0);
+}
+template<class T> T const SENT = mk<T>(-777, -778);   // initial value of caller-provided result variables
+
+template<class T> void section_dot() {
+	ScalSet const none{false, 1};
+	auto ref = [](T, Vec<T> const& X, Vec<T> const& Y, std::vector<T>&, std::vector<T>&) { T s = mk<T>(0, 0); for(long i = 0; i < X.n; ++i) { s += X.at(i) * Y.at(i); } return to_c(s); };
+	std::string const what = "r = sum_i x_i y_i (x or y possibly conjugated with blas::C)";
+	grid_v2<T, true>({"dot.result-arg", what, true, none, false, false, true}, ref, [](T, auto& x, auto& y) { T r = SENT<T>; blas::dot(x, y, r); return to_c(r); });
+	grid_v2<T, true>({"dot.result-0d", what, true, none, false, false, true}, ref, [](T, auto& x, auto& y) { T r = SENT<T>; blas::dot(x, y, multi::array_ref<T, 0>(r)); return to_c(r); });
+	grid_v2<T, true>({"dot.value", what, true, none, false, false, true}, ref, [](T, auto& x, auto& y) { T r = blas::dot(x, y); return to_c(r); });
+	grid_v2<T, true>({"dot.decay", what, true, none, false, false, true}, ref, [](T, auto& x, auto& y) { auto r = +blas::dot(x, y); return to_c(static_cast<T>(r)); });
+	grid_v2<T, true>({"dot.operator,", what, true, none, false, false, true}, ref, [](T, auto& x, auto& y) { using blas::operators::operator,; T r = (x, y); return to_c(r); });
+}
+template<class T> void section_axpy() {
+	ScalSet const all{true, 0}, one{false, 1};
+	auto plus  = [](T alpha, Vec<T> const& X, Vec<T> const&, std::vector<T>&, std::vector<T>& ey) { for(long i = 0; i < X.n; ++i) { ey[static_cast<std::size_t>(i)] += alpha * X.at(i); } return cdbl(0, 0); };
+	auto minus = [](T alpha, Vec<T> const& X, Vec<T> const&, std::vector<T>&, std::vector<T>& ey) { for(long i = 0; i < X.n; ++i) { ey[static_cast<std::size_t>(i)] -= alpha * X.at(i); } return cdbl(0, 0); };
+	grid_v2<T, false>({"axpy.inplace", "y <- alpha x + y", false, all, false, true, false}, plus, [](T alpha, auto& x, auto& y) { blas::axpy(alpha, x, y); return cdbl(0, 0); });
+	// (with a non-const lvalue view x, `y += blas::axpy(alpha, x)` selects the overload axpy(x, y) and does not compile; the range form needs a const x)
+	grid_v2<T, false>({"axpy.pluseq", "y += blas::axpy(alpha, x)", false, all, false, true, false}, plus, [](T alpha, auto& x, auto& y) { y += blas::axpy(alpha, std::as_const(x)); return cdbl(0, 0); });
+	grid_v2<T, false>({"axpy.minuseq", "y -= blas::axpy(alpha, x)", false, all, false, true, false}, minus, [](T alpha, auto& x, auto& y) { y -= blas::axpy(alpha, std::as_const(x)); return cdbl(0, 0); });
+	grid_v2<T, false>({"axpy.operator+=", "y += x", false, one, false, true, false}, plus, [](T, auto& x, auto& y) { using blas::operators::operator+=; y += x; return cdbl(0, 0); });
+	grid_v2<T, false>({"axpy.operator-=", "y -= x", false, one, false, true, false}, minus, [](T, auto& x, auto& y) { using blas::operators::operator-=; y -= x; return cdbl(0, 0); });
+}
+// x + y and x - y return new arrays
+template<class T> void section_axpy_new() {
+	for(int sign = 0; sign < 2; ++sign) {
+		std::string const form = sign == 0 ? "axpy.operator+" : "axpy.operator-";
+		if(!D.want(form, tcode<T>())) { continue; }
+		long const g0 = D.gidx;
+		auto LX = vlayouts<T>(false), LY = vlayouts<T>(false);
+		for(long n = 0; n <= g_vec_max; ++n) { for(VL lx : LX) { for(VL ly : LY) {
+			D.step(n, n >= 1,
+				[&] {
+					Desc d;
+					d.id = form + "/" + tcode<T>() + "/x=" + lname(lx) + ",y=" + lname(ly) + "/n" + std::to_string(n) + "/-";
+					d.keyprefix = family(form) + "|" + tname<T>() + "|x=" + cname(lx) + ",y=" + cname(ly) + "|n=" + szc(n) + "|-";
+					d.fields = {{"operation", form + (sign == 0 ? ": new array = x + y" : ": new array = x - y")}, {"element_type", tname<T>()}, {"layouts", "x=" + lname(lx) + " y=" + lname(ly)}, {"sizes", "n=" + std::to_string(n)}, {"scalars", "none"}};
+					return d;
+				},
+				[&] {
+					Res res;
+					Vec<T> X("x", lx, n, PAD_A), Y("y", ly, n, PAD_B);
+					X.template view<false>([&](auto& x) { Y.template view<false>([&](auto& y) {
+						X.fill(x, genX<T>, res); Y.fill(y, genY<T>, res);
+						if(res.code != 0) { return; }
+						std::vector<T> expect(static_cast<std::size_t>(n));
+						for(long i = 0; i < n; ++i) { expect[static_cast<std::size_t>(i)] = sign == 0 ? X.at(i) + Y.at(i) : X.at(i) - Y.at(i); }
+						multi::array<T, 1> out;
+						if(!ran(guarded([&] { if(sign == 0) { using blas::operators::operator+; out = x + y; } else { using blas::operators::operator-; out = x - y; } }), res, n)) { return; }
+						check_new1<T>(out, n, expect, res); X.check_in(res); Y.check_in(res);
+					}); });
+					return res;
+				});
+		} } }
+		note_section(form + "<" + tname<T>() + ">: n 0.." + std::to_string(g_vec_max) + " x layouts x " + std::to_string(LX.size()) + " x y " + std::to_string(LY.size()), g0);
+	}
+}
+template<class T> void section_copy_swap() {
+	ScalSet const none{false, 1};
+	auto cp = [](T, Vec<T> const& X, Vec<T> const&, std::vector<T>&, std::vector<T>& ey) { ey = X.before; return cdbl(0, 0); };
+	auto sw = [](T, Vec<T> const& X, Vec<T> const& Y, std::vector<T>& ex, std::vector<T>& ey) { ex = Y.before; ey = X.before; return cdbl(0, 0); };
+	grid_v2<T, false>({"copy.inplace", "y <- x", false, none, false, true, false}, cp, [](T, auto& x, auto& y) { blas::copy(x, y); return cdbl(0, 0); });
+	grid_v2<T, false>({"copy.assign", "y = blas::copy(x)", false, none, false, true, false}, cp, [](T, auto& x, auto& y) { y = blas::copy(x); return cdbl(0, 0); });
+	grid_v2<T, false>({"copy.operator<<", "y << x", false, none, false, true, false}, cp, [](T, auto& x, auto& y) { using blas::operators::operator<<; y << x; return cdbl(0, 0); });
+	grid_v2<T, false>({"swap.inplace", "x <-> y", false, none, true, true, false}, sw, [](T, auto& x, auto& y) { blas::swap(x, y); return cdbl(0, 0); });
+	// (x ^ y, the operator form of swap, does not compile on this tree)
+}
+
+// ================================================================================================ level 1: one vector
+struct V1Form { std::string form, opdesc; ScalSet sa; bool xout, scalar_out; int variants; /* data variants per n: 1, or -1 = n+1 (iamax) */ double rel_tol; };
+// gen(i, n, variant) -> x_i;  ref(alpha, X, ex, variant) -> expected scalar (NaN real part = unspecified);  call(alpha, x) -> scalar
+template<class T, class Gen, class Ref, class Call>
+void grid_v1(V1Form const& f, Gen gen, Ref ref, Call call) {
+	if(!D.want(f.form, tcode<T>())) { return; }
+	long const g0 = D.gidx;
+	auto LX = vlayouts<T>(false);
+	int const ns = nscal<T>();
+	for(long n = 0; n <= g_vec_max; ++n) { for(VL lx : LX) { for(int xa = 0; xa < f.sa.count(ns); ++xa) { for(long var = 0; var < (f.variants == -1 ? n + 1 : 1); ++var) {
+		int const ia = f.sa.at(xa);
+		D.step(n, n >= 1,
+			[&] {
+				Desc d;
+				d.id = f.form + "/" + tcode<T>() + "/x=" + lname(lx) + "/n" + std::to_string(n) + "/a=" + sc_name[ia] + ",v=" + std::to_string(var);
+				d.keyprefix = family(f.form) + "|" + tname<T>() + "|x=" + cname(lx) + "|n=" + szc(n) + "|" + (f.sa.enumerated ? "alpha" + sc_class(ia) : std::string("-"));
+				d.fields = {{"operation", f.form + ": " + f.opdesc}, {"element_type", tname<T>()}, {"layouts", "x=" + lname(lx)}, {"sizes", "n=" + std::to_string(n)}, {"scalars", f.sa.enumerated ? std::string("alpha=") + sc_name[ia] : std::string("none")}, {"data_variant", std::to_string(var)}};
+				return d;
+			},
+			[&] {
+				Res res;
+				T const alpha = scal_of<T>(ia);
+				Vec<T> X("x", lx, n, PAD_A);
+				X.template view<false>([&](auto& x) {
+					X.fill(x, [&](long i) { return gen(i, n, var); }, res);
+					if(res.code != 0) { return; }
+					std::vector<T> ex = X.before;
+					cdbl const es = ref(alpha, X, ex, var);
+					cdbl gs(0, 0);
+					if(!ran(guarded([&] { gs = call(alpha, x); }), res, f.scalar_out ? 1 : n)) { return; }
+					if(f.scalar_out && !std::isnan(es.real())) {
+						bool ok = gs == es;
+						if(!ok && f.rel_tol > 0) { ok = std::abs(gs - es) <= f.rel_tol * std::abs(es); }
+						if(!ok) { res.flag(gs == cdbl(-777, -778) || gs == cdbl(-777, 0) ? "output-untouched" : "wrong-result", "result expected " + cstr(es) + " got " + cstr(gs)); }
+					}
+					if(f.xout) { X.check_out(x, ex, res); } else { X.check_in(res); }
+				});
+				return res;
+			});
+	} } } }
+	note_section(f.form + "<" + tname<T>() + ">: n 0.." + std::to_string(g_vec_max) + " x layouts x " + std::to_string(LX.size()) + " x alpha " + std::to_string(f.sa.count(ns)) + (f.variants == -1 ? " x (n+1) data variants" : ""), g0);
+}
+// data with an integer Euclidean norm, all parts >= 1
+template<class T> T gen_nrm(long i, long n, long) {
+	static long const re[5][4] = {{0, 0, 0, 0}, {3, 0, 0, 0}, {3, 4, 0, 0}, {2, 3, 6, 0}, {2, 4, 5, 6}};                                              // norms 3, 5, 7, 9
+	static long const cr[5][4] = {{0, 0, 0, 0}, {3, 0, 0, 0}, {1, 2, 0, 0}, {1, 1, 2, 0}, {1, 1, 1, 1}}, ci[5][4] = {{0, 0, 0, 0}, {4, 0, 0, 0}, {2, 4, 0, 0}, {1, 1, 1, 0}, {1, 1, 1, 3}};  // norms 5, 5, 3, 4
+	if constexpr(is_cx<T>{}) { return mk<T>(cr[n][i], ci[n][i]); } else { return mk<T>(re[n][i], 0); }
+}
+template<class T> T gen_plain(long i, long, long) { return genX<T>(i); }
+// iamax data: variant v < n: the unique largest |re|+|im| is at position v; variant n: all elements equal (the first index wins)
+template<class T> T gen_amax(long i, long n, long v) { if(v == n) { return mk<T>(2, 3); } return i == v ? mk<T>(9, 11) : mk<T>(1 + i, 2 + (i % 2)); }
+template<class T> void section_level1_single() {
+	using R = real_t<T>;
+	ScalSet const all{true, 0}, none{false, 1};
+	auto l1norm = [](T v) { if constexpr(is_cx<T>{}) { return std::abs(static_cast<double>(v.real())) + std::abs(static_cast<double>(v.imag())); } else { return std::abs(static_cast<double>(v)); } };
+	grid_v1<T>({"scal.inplace", "x <- alpha x", all, true, false, 1, 0.0}, gen_plain<T>, [](T alpha, Vec<T> const& X, std::vector<T>& ex, long) { for(long i = 0; i < X.n; ++i) { ex[static_cast<std::size_t>(i)] = alpha * X.at(i); } return cdbl(0, 0); },
+		[](T alpha, auto& x) { blas::scal(alpha, x); return cdbl(0, 0); });
+	grid_v1<T>({"scal.operator*=", "x *= alpha", all, true, false, 1, 0.0}, gen_plain<T>, [](T alpha, Vec<T> const& X, std::vector<T>& ex, long) { for(long i = 0; i < X.n; ++i) { ex[static_cast<std::size_t>(i)] = alpha * X.at(i); } return cdbl(0, 0); },
+		[](T alpha, auto& x) { using blas::operators::operator*=; x *= alpha; return cdbl(0, 0); });
+	// nrm2: the data have integer norms 0, 3|5, 5, 7|3, 9|4; comparison is exact (tolerance 0)
+	auto nrm = [](T, Vec<T> const& X, std::vector<T>&, long) { double s = 0; for(long i = 0; i < X.n; ++i) { s += std::norm(to_c(X.at(i))); } return cdbl(std::sqrt(s), 0); };
+	grid_v1<T>({"nrm2.result-arg", "r = sqrt(sum |x_i|^2)", none, false, true, 1, 0.0}, gen_nrm<T>, nrm, [](T, auto& x) { R r = static_cast<R>(-777); blas::nrm2(x, r); return cdbl(static_cast<double>(r), 0); });
+	grid_v1<T>({"nrm2.result-0d", "r = sqrt(sum |x_i|^2)", none, false, true, 1, 0.0}, gen_nrm<T>, nrm, [](T, auto& x) { R r = static_cast<R>(-777); blas::nrm2(x, multi::array_ref<R, 0>(r)); return cdbl(static_cast<double>(r), 0); });
+	grid_v1<T>({"nrm2.value", "r = sqrt(sum |x_i|^2)", none, false, true, 1, 0.0}, gen_nrm<T>, nrm, [](T, auto& x) { R r = blas::nrm2(x); return cdbl(static_cast<double>(r), 0); });
+	grid_v1<T>({"nrm2.decay", "r = sqrt(sum |x_i|^2)", none, false, true, 1, 0.0}, gen_nrm<T>, nrm, [](T, auto& x) { auto r = +blas::nrm2(x); return cdbl(static_cast<double>(r), 0); });
+	grid_v1<T>({"nrm2.operators-abs", "r = sqrt(sum |x_i|^2)", none, false, true, 1, 0.0}, gen_nrm<T>, nrm, [](T, auto& x) { using blas::operators::abs; R r = abs(x); return cdbl(static_cast<double>(r), 0); });
+	// asum (the value forms `R r = blas::asum(x)` / `+blas::asum(x)` do not compile for views on this tree)
+	grid_v1<T>({"asum.result-arg", "r = sum |re x_i| + |im x_i|", none, false, true, 1, 0.0}, gen_plain<T>, [l1norm](T, Vec<T> const& X, std::vector<T>&, long) { double s = 0; for(long i = 0; i < X.n; ++i) { s += l1norm(X.at(i)); } return cdbl(s, 0); },
+		[](T, auto& x) { R r = static_cast<R>(-777); blas::asum(x, r); return cdbl(static_cast<double>(r), 0); });
+	// iamax(x) itself does not compile in an assertion-enabled build (iamax.hpp:27 `assert(! offset(x))`); the iterator forms do
+	auto amax = [l1norm](T, Vec<T> const& X, std::vector<T>&, long) { if(X.n == 0) { return cdbl(std::nan(""), 0); } long b = 0; for(long i = 1; i < X.n; ++i) { if(l1norm(X.at(i)) > l1norm(X.at(b))) { b = i; } } return cdbl(static_cast<double>(b), 0); };
+	grid_v1<T>({"iamax.iterators", "index of the first element of largest |re|+|im|", none, false, true, -1, 0.0}, gen_amax<T>, amax, [](T, auto& x) { auto i = blas::iamax(x.begin(), x.end()); return cdbl(static_cast<double>(i), 0); });
+	grid_v1<T>({"iamax.n", "index of the first element of largest |re|+|im|", none, false, true, -1, 0.0}, gen_amax<T>, amax, [](T, auto& x) { auto i = blas::iamax_n(x.begin(), x.size()); return cdbl(static_cast<double>(i), 0); });
+}
+// copy into a new array
+template<class T> void section_copy_new() {
+	std::string const form = "copy.construct";
+	if(!D.want(form, tcode<T>())) { return; }
+	long const g0 = D.gidx;
+	auto LX = vlayouts<T>(false);
+	for(long n = 0; n <= g_vec_max; ++n) { for(VL lx : LX) {
+		D.step(n, n >= 1,
+			[&] {
+				Desc d;
+				d.id = form + "/" + tcode<T>() + "/x=" + lname(lx) + "/n" + std::to_string(n) + "/-";
+				d.keyprefix = family(form) + "|" + tname<T>() + "|x=" + cname(lx) + "|n=" + szc(n) + "|-";
+				d.fields = {{"operation", form + ": multi::array<T,1> r = blas::copy(x)"}, {"element_type", tname<T>()}, {"layouts", "x=" + lname(lx)}, {"sizes", "n=" + std::to_string(n)}, {"scalars", "none"}};
+				return d;
+			},
+			[&] {
+				Res res;
+				Vec<T> X("x", lx, n, PAD_A);
+				X.template view<false>([&](auto& x) {
+					X.fill(x, genX<T>, res);
+					if(res.code != 0) { return; }
+					multi::array<T, 1> out;
+					if(!ran(guarded([&] { multi::array<T, 1> r = blas::copy(x); out = std::move(r); }), res, n)) { return; }
+					check_new1<T>(out, n, X.before, res); X.check_in(res);
+				});
+				return res;
+			});
+	} }
+	note_section(form + "<" + tname<T>() + ">: n 0.." + std::to_string(g_vec_max) + " x layouts x " + std::to_string(LX.size()), g0);
+}
+
+// ================================================================================================ HERK / SYRK
+// C (n x n), triangle(s) `fill` <- alpha A (n x k) A^H (herk; A^T for syrk) + beta C; the other triangle is not modified.
+// For herk on complex elements alpha and beta are real, the diagonal of C is given real and stays real.
+template<class T> T genCh(long i, long j) { return i == j ? mk<T>(5 + 5 * i, 0) : genC<T>(i, j); }
+struct RkForm { std::string form, opdesc; bool herm; int tri; /* 0 lower, 1 upper, 2 both, -1 enumerate lower/upper */ ScalSet sa, sb; bool conjA, conjC; };
+// call(fill, alpha, A, beta, C)
+template<class T, bool ConjA, bool ConjC, class Call>
+void grid_rk(RkForm const& f, Call call) {
+	if(!D.want(f.form, tcode<T>())) { return; }
+	long const g0 = D.gidx;
+	auto LA = mlayouts<T>(ConjA), LC = mlayouts<T>(ConjC);
+	bool const real_scalars = f.herm;                       // herk: alpha, beta in {0, 1, 2}
+	int const ns = real_scalars ? 3 : nscal<T>();
+	for(long n = 0; n <= g_sizes_max; ++n) { for(long k = 0; k <= g_sizes_max; ++k) {
+	for(ML la : LA) { for(ML lc : LC) { for(int tri = (f.tri == -1 ? 0 : f.tri); tri <= (f.tri == -1 ? 1 : f.tri); ++tri) {
+	for(int xa = 0; xa < f.sa.count(ns); ++xa) { for(int xb = 0; xb < f.sb.count(ns); ++xb) {
+		int const ia = f.sa.at(xa), ib = f.sb.at(xb);
+		char const* const trn = tri == 0 ? "lower" : (tri == 1 ? "upper" : "both");
+		D.step(n * 10 + k, n >= 1 && k >= 1,
+			[&] {
+				Desc d;
+				d.id = f.form + "/" + tcode<T>() + "/A=" + lname(la) + ",C=" + lname(lc) + "/n" + std::to_string(n) + "k" + std::to_string(k) + "/a=" + sc_name[ia] + ",b=" + sc_name[ib] + "," + trn;
+				d.keyprefix = family(f.form) + "|" + tname<T>() + "|A=" + cname(la) + ",C=" + cname(lc) + "," + trn + "|n=" + szc(n) + ",k=" + szc(k) + "|beta" + sc_class(ib);
+				d.fields = {{"operation", f.form + ": " + f.opdesc}, {"element_type", tname<T>()}, {"layouts", "A=" + lname(la) + " C=" + lname(lc) + " triangle=" + trn}, {"sizes", "n=" + std::to_string(n) + " k=" + std::to_string(k)},
+					{"scalars", std::string("alpha=") + sc_name[ia] + (f.sa.enumerated ? "" : " (implied)") + " beta=" + sc_name[ib] + (f.sb.enumerated ? "" : " (implied)")}};
+				return d;
+			},
+			[&] {
+				Res res;
+				T const alpha = scal_of<T>(ia), beta = scal_of<T>(ib);
+				Mat<T> A("A", la, n, k, PAD_A), C("C", lc, n, n, PAD_C);
+				A.template view<ConjA>([&](auto& a) { C.template view<ConjC>([&](auto& c) {
+					A.fill(a, genA<T>, res); C.fill(c, genCh<T>, res);
+					if(res.code != 0) { return; }
+					std::vector<T> expect = C.before;
+					for(long i = 0; i < n; ++i) { for(long j = 0; j < n; ++j) {
+						if(!(tri == 2 || (tri == 0 && i >= j) || (tri == 1 && i <= j))) { continue; }
+						T s = mk<T>(0, 0);
+						for(long p = 0; p < k; ++p) { s += A.at(i, p) * (f.herm ? cj(A.at(j, p)) : A.at(j, p)); }
+						expect[static_cast<std::size_t>(i * n + j)] = alpha * s + beta * C.at(i, j);
+					} }
+					blas::filling const fl = tri == 0 ? blas::filling::lower : blas::filling::upper;
+					if(!ran(guarded([&] { call(fl, alpha, a, beta, c); }), res, n * n)) { return; }
+					C.check_out(c, expect, res); A.check_in(res);
+				}); });
+				return res;
+			});
+	} } } } } } }
+	note_section(f.form + "<" + tname<T>() + ">: sizes (0.." + std::to_string(g_sizes_max) + ")^2 x layouts A " + std::to_string(LA.size()) + " x C " + std::to_string(LC.size()) + " x triangles " + (f.tri == -1 ? "2" : "1") + " x alpha " + std::to_string(f.sa.count(ns)) + " x beta " + std::to_string(f.sb.count(ns)), g0);
+}
+template<class T> void section_rk() {
+	using R = real_t<T>;
+	ScalSet const all{true, 0}, zero{false, 0}, one{false, 1};
+	auto re = [](T v) { if constexpr(is_cx<T>{}) { return v.real(); } else { return v; } };
+	// herk (for real element types the library forwards to syrk).  C is passed as an rvalue view: with an lvalue view the real (syrk) path does not compile.
+	std::string const hd = "C(n x n)[triangle] <- alpha A(n x k) A^H + beta C";
+	grid_rk<T, true, true>({"herk.inplace", hd, true, -1, all, all, true, true}, [re](blas::filling fl, T alpha, auto& a, T beta, auto& c) { blas::herk(fl, static_cast<R>(re(alpha)), a, static_cast<R>(re(beta)), std::move(c)); });
+	grid_rk<T, true, true>({"herk.fill-alpha", hd, true, -1, all, zero, true, true}, [re](blas::filling fl, T alpha, auto& a, T, auto& c) { blas::herk(fl, static_cast<R>(re(alpha)), a, std::move(c)); });
+	grid_rk<T, true, true>({"herk.alpha", "C(n x n) <- alpha A(n x k) A^H (both triangles)", true, 2, all, zero, true, true}, [re](blas::filling, T alpha, auto& a, T, auto& c) { blas::herk(static_cast<R>(re(alpha)), a, std::move(c)); });
+	if constexpr(!std::is_same_v<T, std::complex<float>>) {  // herk(A, C) passes alpha = 1.0 (double): no matching core::herk for complex<float>
+		grid_rk<T, true, true>({"herk.plain", "C(n x n) <- A(n x k) A^H (both triangles)", true, 2, one, zero, true, true}, [](blas::filling, T, auto& a, T, auto& c) { blas::herk(a, std::move(c)); });
+	}
+	// syrk (no conjugated operands: does not compile)
+	std::string const sd = "C(n x n)[triangle] <- alpha A(n x k) A^T + beta C";
+	grid_rk<T, false, false>({"syrk.inplace", sd, false, -1, all, all, false, false}, [](blas::filling fl, T alpha, auto& a, T beta, auto& c) { blas::syrk(fl, alpha, a, beta, std::move(c)); });
+	grid_rk<T, false, false>({"syrk.fill-alpha", sd, false, -1, all, zero, false, false}, [](blas::filling fl, T alpha, auto& a, T, auto& c) { blas::syrk(fl, alpha, a, std::move(c)); });
+}
+// herk returning a new array
+template<class T> void section_herk_new() {
+	using R = real_t<T>;
+	for(int variant = 0; variant < 2; ++variant) {
+		std::string const form = variant == 0 ? "herk.value-alpha" : "herk.value";
+		if(variant == 1 && std::is_same_v<T, std::complex<float>>) { continue; }
+		if(!D.want(form, tcode<T>())) { continue; }
+		long const g0 = D.gidx;
+		auto LA = mlayouts<T>(true);
+		for(long n = 0; n <= g_sizes_max; ++n) { for(long k = 0; k <= g_sizes_max; ++k) { for(ML la : LA) { for(int ia = (variant == 0 ? 0 : 1); ia < (variant == 0 ? 3 : 2); ++ia) {
+			D.step(n * 10 + k, n >= 1 && k >= 1,
+				[&] {
+					Desc d;
+					d.id = form + "/" + tcode<T>() + "/A=" + lname(la) + "/n" + std::to_string(n) + "k" + std::to_string(k) + "/a=" + sc_name[ia];
+					d.keyprefix = family(form) + "|" + tname<T>() + "|A=" + cname(la) + "|n=" + szc(n) + ",k=" + szc(k) + "|alpha" + sc_class(ia);
+					d.fields = {{"operation", form + ": new array (n x n) = alpha A(n x k) A^H"}, {"element_type", tname<T>()}, {"layouts", "A=" + lname(la)}, {"sizes", "n=" + std::to_string(n) + " k=" + std::to_string(k)}, {"scalars", std::string("alpha=") + sc_name[ia]}};
+					return d;
+				},
+				[&] {
+					Res res;
+					T const alpha = scal_of<T>(ia);
+					Mat<T> A("A", la, n, k, PAD_A);
+					A.template view<true>([&](auto& a) {
+						A.fill(a, genA<T>, res);
+						if(res.code != 0) { return; }
+						std::vector<T> expect(static_cast<std::size_t>(n * n));
+						for(long i = 0; i < n; ++i) { for(long j = 0; j < n; ++j) { T s = mk<T>(0, 0); for(long p = 0; p < k; ++p) { s += A.at(i, p) * cj(A.at(j, p)); } expect[static_cast<std::size_t>(i * n + j)] = alpha * s; } }
+						multi::array<T, 2> out;
+						if(!ran(guarded([&] {
+							if constexpr(!std::is_same_v<T, std::complex<float>>) { if(variant == 1) { multi::array<T, 2> r = blas::herk(a); out = std::move(r); return; } }
+							R ra; if constexpr(is_cx<T>{}) { ra = alpha.real(); } else { ra = alpha; }
+							multi::array<T, 2> r = blas::herk(ra, a); out = std::move(r);
+						}), res, n * n)) { return; }
+						check_new2<T>(out, n, n, expect, res); A.check_in(res);
+					});
+					return res;
+				});
+		} } } }
+		note_section(form + "<" + tname<T>() + ">: sizes (0.." + std::to_string(g_sizes_max) + ")^2 x layouts A " + std::to_string(LA.size()) + " x alpha " + (variant == 0 ? "3" : "1"), g0);
+	}
+}
+
+// ================================================================================================ TRSM
+// side left:  B (m x n) <- alpha op(A)^-1 B, A (m x m);   side right:  B <- alpha B op(A)^-1, A (n x n).
+// `fill` says which triangle of A is used (the other one holds non-zero junk that must be ignored); diag unit: the stored diagonal is ignored as well.
+// Data: off-diagonal small integers, diagonal in {2, 1, 4} (complex: {2, 2i, 1}): every quotient is a dyadic rational, the reference and BLAS are both exact.
+template<class T> T trsm_diag(long i) { if constexpr(is_cx<T>{}) { return i % 3 == 0 ? mk<T>(2, 0) : (i % 3 == 1 ? mk<T>(0, 2) : mk<T>(1, 0)); } else { return i % 3 == 0 ? mk<T>(2, 0) : (i % 3 == 1 ? mk<T>(1, 0) : mk<T>(4, 0)); } }
+template<class T> T genTA(long i, long j) { return i == j ? trsm_diag<T>(i) : genA<T>(i, j); }
+template<class T> T exact_inv(T d) {  // d is real or purely imaginary, a power of two in magnitude
+	if constexpr(is_cx<T>{}) { using R = real_t<T>; return d.imag() == 0 ? T(R(1) / d.real(), R(0)) : T(R(0), -R(1) / d.imag()); } else { return T(1) / d; }
+}
+struct TrsmForm { std::string form, opdesc; bool enum_diag; int side_fixed, fill_fixed; /* -1: enumerate */ ScalSet sa; };
+// call(side, fill, diag, alpha, A, B)
+template<class T, class Call>
+void grid_trsm(TrsmForm const& f, Call call) {
+	if(!D.want(f.form, tcode<T>())) { return; }
+	long const g0 = D.gidx;
+	auto LA = mlayouts<T>(true), LB = mlayouts<T>(true);
+	int const ns = nscal<T>();
+	long cnt_layouts = 0;
+	for(long m = 0; m <= g_sizes_max; ++m) { for(long n = 0; n <= g_sizes_max; ++n) {
+	for(ML la : LA) { for(ML lb : LB) {
+	if(la.wrap != WI && lb.wrap != WI) { continue; }   // A and B both conjugated: trsm.hpp:107 does not compile (`bbase`)
+	if(m == 0 && n == 0) { ++cnt_layouts; }
+	for(int side = (f.side_fixed == -1 ? 0 : f.side_fixed); side <= (f.side_fixed == -1 ? 1 : f.side_fixed); ++side) {
+	for(int fill = (f.fill_fixed == -1 ? 0 : f.fill_fixed); fill <= (f.fill_fixed == -1 ? 1 : f.fill_fixed); ++fill) {
+	for(int unit = 0; unit < (f.enum_diag ? 2 : 1); ++unit) { for(int xa = 0; xa < f.sa.count(ns); ++xa) {
+		int const ia = f.sa.at(xa);
+		std::string const sfd = std::string(side == 0 ? "left" : "right") + "," + (fill == 0 ? "lower" : "upper") + "," + (unit != 0 ? "unit" : "nonunit");
+		D.step(m * 10 + n, m >= 1 && n >= 1,
+			[&] {
+				Desc d;
+				d.id = f.form + "/" + tcode<T>() + "/A=" + lname(la) + ",B=" + lname(lb) + "/m" + std::to_string(m) + "n" + std::to_string(n) + "/a=" + sc_name[ia] + "," + sfd;
+				d.keyprefix = family(f.form) + "|" + tname<T>() + "|A=" + cname(la) + ",B=" + cname(lb) + "," + sfd + "|m=" + szc(m) + ",n=" + szc(n) + "|alpha" + sc_class(ia);
+				d.fields = {{"operation", f.form + ": " + f.opdesc}, {"element_type", tname<T>()}, {"layouts", "A=" + lname(la) + " B=" + lname(lb)}, {"side_fill_diag", sfd}, {"sizes", "m=" + std::to_string(m) + " n=" + std::to_string(n)},
+					{"scalars", std::string("alpha=") + sc_name[ia] + (f.sa.enumerated ? "" : " (implied)")}};
+				return d;
+			},
+			[&] {
+				Res res;
+				T const alpha = scal_of<T>(ia);
+				long const p = side == 0 ? m : n;
+				Mat<T> A("A", la, p, p, PAD_A), B("B", lb, m, n, PAD_B);
+				A.template view<true>([&](auto& a) { B.template view<true>([&](auto& b) {
+					if constexpr(both_conj<decltype(a), decltype(b)>) { return; } else {
+					A.fill(a, genTA<T>, res); B.fill(b, genB<T>, res);
+					if(res.code != 0) { return; }
+					// the triangular matrix that the call denotes
+					auto tr = [&](long i, long j) { bool in = fill == 0 ? i >= j : i <= j; if(!in) { return mk<T>(0, 0); } if(i == j && unit != 0) { return mk<T>(1, 0); } return A.at(i, j); };
+					std::vector<T> expect(static_cast<std::size_t>(m * n));
+					// solve L z = alpha r for a lower triangular (forward) or upper triangular (backward) p x p system L(i, j)
+					auto solve = [&](auto L, bool lower, std::vector<T> rhs) {
+						std::vector<T> z(static_cast<std::size_t>(p));
+						for(long s = 0; s < p; ++s) {
+							long i = lower ? s : p - 1 - s;
+							T acc = alpha * rhs[static_cast<std::size_t>(i)];
+							for(long j = 0; j < p; ++j) { if(j != i && (lower ? j < i : j > i)) { acc -= L(i, j) * z[static_cast<std::size_t>(j)]; } }
+							z[static_cast<std::size_t>(i)] = acc * exact_inv(L(i, i));
+						}
+						return z;
+					};
+					if(side == 0) {  // tri X = alpha B, column by column
+						for(long c = 0; c < n; ++c) { std::vector<T> rhs(static_cast<std::size_t>(m)); for(long i = 0; i < m; ++i) { rhs[static_cast<std::size_t>(i)] = B.at(i, c); } auto z = solve(tr, fill == 0, rhs); for(long i = 0; i < m; ++i) { expect[static_cast<std::size_t>(i * n + c)] = z[static_cast<std::size_t>(i)]; } }
+					} else {         // X tri = alpha B  <=>  tri^T X^T = alpha B^T, row by row
+						auto trT = [&](long i, long j) { return tr(j, i); };
+						for(long r = 0; r < m; ++r) { std::vector<T> rhs(static_cast<std::size_t>(n)); for(long j = 0; j < n; ++j) { rhs[static_cast<std::size_t>(j)] = B.at(r, j); } auto z = solve(trT, fill != 0, rhs); for(long j = 0; j < n; ++j) { expect[static_cast<std::size_t>(r * n + j)] = z[static_cast<std::size_t>(j)]; } }
+					}
+					if(!ran(guarded([&] { call(side == 0 ? blas::side::left : blas::side::right, fill == 0 ? blas::filling::lower : blas::filling::upper, unit != 0 ? blas::diagonal::unit : blas::diagonal::non_unit, alpha, a, b); }), res, m * n)) { return; }
+					B.check_out(b, expect, res); A.check_in(res);
+					}
+				}); });
+				return res;
+			});
+	} } } } } } } }
+	note_section(f.form + "<" + tname<T>() + ">: sizes (0.." + std::to_string(g_sizes_max) + ")^2 x layout pairs (A, B) " + std::to_string(cnt_layouts) + " x side " + (f.side_fixed == -1 ? "2" : "1") + " x fill " + (f.fill_fixed == -1 ? "2" : "1") + " x diag " + (f.enum_diag ? "2" : "1") + " x alpha " + std::to_string(f.sa.count(ns)), g0);
+}
+template<class T> void section_trsm() {
+	ScalSet const all{true, 0}, one{false, 1};
+	std::string const td = "B(m x n) <- alpha op(A)^-1 B (left) or alpha B op(A)^-1 (right)";
+	grid_trsm<T>({"trsm.side-fill-diag", td, true, -1, -1, all}, [](blas::side s, blas::filling fl, blas::diagonal dg, T alpha, auto& a, auto& b) { blas::trsm(s, fl, dg, alpha, a, b); });
+	grid_trsm<T>({"trsm.side-fill", td, false, -1, -1, all}, [](blas::side s, blas::filling fl, blas::diagonal, T alpha, auto& a, auto& b) { blas::trsm(s, fl, alpha, a, b); });
+	grid_trsm<T>({"trsm.triangular-part", td, false, -1, -1, all}, [](blas::side s, blas::filling fl, blas::diagonal, T alpha, auto& a, auto& b) { if(fl == blas::filling::lower) { blas::trsm(s, alpha, blas::L(a), b); } else { blas::trsm(s, alpha, blas::U(a), b); } });
+	grid_trsm<T>({"trsm.operator/=", "B /= U(A) or L(A)  (B <- B A^-1)", false, 1, -1, one}, [](blas::side, blas::filling fl, blas::diagonal, T, auto& a, auto& b) { using namespace blas::operators; if(fl == blas::filling::lower) { b /= L(a); } else { b /= U(a); } });
+	grid_trsm<T>({"trsm.operator|=", "B |= U(A) or L(A)  (B <- A^-1 B)", false, 0, -1, one}, [](blas::side, blas::filling fl, blas::diagonal, T, auto& a, auto& b) { using namespace blas::operators; if(fl == blas::filling::lower) { b |= L(a); } else { b |= U(a); } });
 }
 
 // ================================================================================================ main
 template<class T> void all_sections() {
 	section_gemm<T>();
+	section_gemv<T>();
+	section_dot<T>(); section_axpy<T>(); section_axpy_new<T>(); section_copy_swap<T>(); section_copy_new<T>(); section_level1_single<T>();
+	section_rk<T>(); section_herk_new<T>();
+	section_trsm<T>();
 }
 
 int main(int argc, char** argv) {
@@ -502,7 +1097,7 @@ int main(int argc, char** argv) {
 	if(D.mode == Driver::REPLAY) {
 		if(!D.replay_found) { std::printf("REPLAY: no configuration with this id in the grid\n"); return 2; }
 		Res const& r = D.replay_res;
-		if(r.code == 3) { std::printf("REPLAY VIOLATION %s|%s %s\n", D.replay_desc.keyprefix.c_str(), r.symptom.c_str(), Driver::record(D.replay_desc, r).c_str()); return 1; }
+		if(r.code == 3) { std::printf("REPLAY VIOLATION %s|%s %s\n", D.replay_desc.keyprefix.c_str(), r.keysym().c_str(), Driver::record(D.replay_desc, r).c_str()); return 1; }
 		std::printf("REPLAY OK (%s)\n", r.code == 0 ? "correct" : (r.code == 1 ? ("rejected by exception: " + g_exc.substr(0, 300)).c_str() : (std::string("rejected by assertion: ") + g_assert).c_str()));
 		return 0;
 	}
@@ -510,8 +1105,14 @@ int main(int argc, char** argv) {
 	mc::R.add("correct", D.sh->n_correct); mc::R.add("rejected", D.sh->n_rej_exc + D.sh->n_rej_assert);
 	mc::R.add("rejected_by_exception", D.sh->n_rej_exc); mc::R.add("rejected_by_assertion", D.sh->n_rej_assert);
 	mc::R.add("violating_configurations", D.sh->n_viol); mc::R.add("child_deaths", D.deaths);
+	if(D.sh->n_correct > 0) { mc::R.outcome("correct"); } if(D.sh->n_rej_exc > 0) { mc::R.outcome("rejected-by-exception"); } if(D.sh->n_rej_assert > 0) { mc::R.outcome("rejected-by-assertion"); }
+	for(auto const& kv : mc::R.viol) { mc::R.outcome(kv.first.substr(kv.first.rfind('|') + 1)); }
 	if(D.shard == 0) {
 		mc::R.add("grid_configurations", D.gidx);
+		mc::R.note(std::string("tier ") + (g_thorough ? "thorough" : "quick") + ": matrix dimensions 0.." + std::to_string(g_sizes_max) + ", vector lengths 0.." + std::to_string(g_vec_max) + ", element types " + (g_thorough ? "double, complex<double>, float, complex<float>" : "double, complex<double>") + "; scalars {0,1,2} (+ {i, 1+2i} for complex); every combination is executed");
+		mc::R.note("not instantiable on this tree (compile probes, hard errors, therefore excluded at compile time): every gemm form for complex<float> (core.hpp:530 `*beta != 0.0`); blas::iamax(x) in assertion-enabled builds (iamax.hpp:27 `assert(! offset(x))`; the iterator forms are used); "
+			"value forms of asum for views (asum.hpp:48); x ^ y (swap operator); y += alpha*x (axpy.hpp:156 returns a view by value); syrk and real herk with an lvalue output view (syrk.hpp:35 returns by value; an rvalue view is passed); "
+			"trsm with A and B both conjugated (trsm.hpp:107 `bbase`); herk(A, C) and herk(A) for complex<float> (alpha = 1.0 is a double); conjugated operands of gemv's x/y, axpy, scal, copy, swap, nrm2, asum, syrk");
 		for(auto const& s : g_sections) { mc::R.note(s.name + " = " + std::to_string(s.n) + " configurations"); }
 	}
 	mc::R.emit(stdout);
